@@ -2,7 +2,10 @@
 //!
 //! Space (all enumerated): authored documents = every sequence of 1..=4 (quick) / 1..=5
 //! (thorough) blocks from {H1 24 pt bold, H2 18 pt bold, one-sentence paragraph 10 pt,
-//! two-sentence paragraph, list item, ruled 2×2 table, page break}, every sentence / heading /
+//! two-sentence paragraph, list item, ruled 2×2 table, page break, one-sentence paragraph in
+//! Times-Roman with the same character count as the Helvetica one (font-weight tie inside a merged
+//! chunk)} × page sizes {all A4, first page A4 landscape then A4 — only for documents with a page
+//! break}, every sentence / heading /
 //! table cell carrying a unique marker word; × max_tokens {64, 8, 512} × 4 context modes ×
 //! 2 merge policies. Each document is written with `oxidize_pdf::Document`/`Page` text and
 //! graphics calls, serialised with `to_bytes`, re-opened with `PdfReader`/`PdfDocument`, and
@@ -35,7 +38,8 @@ use vx::{Ctx, Explore, Report};
 
 pub const BUILT: bool = true;
 
-const KINDS: [&str; 7] = ["H1", "H2", "para", "para2", "list", "table", "break"];
+const KINDS: [&str; 8] = ["H1", "H2", "para", "para2", "list", "table", "break", "paraT"];
+const PAGE_SIZES: [&str; 2] = ["all A4 portrait", "first page A4 landscape (842x595), then A4 portrait"];
 const MAXTOK: [usize; 3] = [64, 8, 512];
 const CTX_NAMES: [&str; 4] = ["heading", "none", "contextual-labeled", "contextual-prose"];
 const N_CFG: usize = 3 * 4 * 2;
@@ -121,14 +125,15 @@ fn add_unit(units: &mut Vec<Unit>, page: u32, marker: String, text: String, is_t
     units.push(Unit { marker, text, page, is_title, is_table: false, crumb: crumb_of(st), crumb_page: crumb_of(sp), crumb_fused: crumb_of(sf) });
 }
 
-fn author(seq: &[usize]) -> (Vec<u8>, Vec<Unit>, u32) {
+fn author(seq: &[usize], mixed_sizes: bool) -> (Vec<u8>, Vec<Unit>, u32) {
     let mut doc = Document::new();
     doc.set_title("Verification sample");
     doc.set_author("vx");
     let mut units: Vec<Unit> = Vec::new();
-    let mut page = Page::a4();
+    // first page: A4, or A4 landscape (height 595) when the document mixes page sizes
+    let mut page = if mixed_sizes { Page::new(842.0, 595.0) } else { Page::a4() };
     let mut page_no = 0u32;
-    let mut y = 760.0;
+    let mut y = if mixed_sizes { 595.0 - 82.0 } else { 760.0 };
     let mut stack: Vec<(u8, String)> = Vec::new();
     let mut stack_page: Vec<(u8, String)> = Vec::new();
     let mut stack_fused: Vec<(u8, String)> = Vec::new();
@@ -186,6 +191,13 @@ fn author(seq: &[usize]) -> (Vec<u8>, Vec<Unit>, u32) {
                     add_unit(&mut units, page_no, marker(b, sub), text, false, &stack, &stack_page, &stack_fused);
                     units.last_mut().unwrap().is_table = true;
                 }
+            }
+            7 => {
+                // same character count as the Helvetica paragraph (kind 2): a chunk holding one of
+                // each has two fonts with exactly equal character weight
+                let text = format!("{} serif body text here.", marker(b, 0));
+                page.text().set_font(Font::TimesRoman, 10.0).at(x, y).write(&text).expect("write paraT");
+                add_unit(&mut units, page_no, marker(b, 0), text, false, &stack, &stack_page, &stack_fused);
             }
             _ => {
                 doc.add_page(std::mem::replace(&mut page, Page::a4()));
@@ -334,7 +346,8 @@ pub fn worker_main(args: &[String]) -> i32 {
         Some("probe") => {
             let seq: Vec<usize> = args.get(1).map(|s| s.bytes().map(|b| (b - b'0') as usize).collect()).unwrap_or_default();
             let cfg = Cfg::from_index(args.get(2).and_then(|s| s.parse().ok()).unwrap_or(0));
-            let (bytes, units, pages) = author(&seq);
+            let mixed = args.get(3).map(|s| s == "1").unwrap_or(false);
+            let (bytes, units, pages) = author(&seq, mixed);
             println!("pages={pages} bytes={}", bytes.len());
             for u in &units {
                 println!("unit {u:?}");
@@ -379,15 +392,17 @@ fn norm(s: &str) -> String {
 fn body(c: &mut Ctx, lens: &[usize]) {
     let len = *c.pick_from("blocks", lens);
     let seq: Vec<usize> = (0..len).map(|_| c.choose("block", KINDS.len())).collect();
+    // page sizes only vary when there is a later page
+    let mixed = seq.contains(&6) && c.choose("page_sizes", PAGE_SIZES.len()) == 1;
     let cfg = Cfg {
         max_tokens: MAXTOK[c.choose("max_tokens", 3)],
         ctx: c.choose("context_mode", 4),
         same_type_only: c.choose("policy", 2) == 1,
     };
-    c.input(vx::h64(&(&seq, cfg)));
-    let show_seq = seq.iter().map(|&k| KINDS[k]).collect::<Vec<_>>().join(" ");
+    c.input(vx::h64(&(&seq, mixed, cfg)));
+    let show_seq = format!("{}{}", seq.iter().map(|&k| KINDS[k]).collect::<Vec<_>>().join(" "), if mixed { " | first page landscape" } else { "" });
 
-    let (bytes, units, pages) = match vx::guard(|| author(&seq)) {
+    let (bytes, units, pages) = match vx::guard(|| author(&seq, mixed)) {
         Ok(v) => v,
         Err(p) => {
             c.fail(format!("C15/authoring-panic@{}", vx::panic_site(&p)), format!("doc=[{show_seq}] {p}"));
@@ -554,8 +569,9 @@ pub fn run(rep: &mut Report) {
     rep.assume("serialised output = Debug rendering of every RagChunk plus its chunk_id (the harness does not enable the library's `semantic` feature, so serde JSON is not available)");
     rep.assume("a heading's own chunk may list the heading itself in heading_path or not; chunks holding content with different governing headings are checked by membership");
     rep.note("blocks", json!(KINDS));
-    rep.explore("docs-le4", Explore::full(), |c| body(c, &[1, 2, 3, 4]));
+    rep.note("page_sizes", json!({"menu": PAGE_SIZES, "rule": "enumerated only for documents with at least one page break"}));
+    rep.explore("docs8-le4", Explore::full(), |c| body(c, &[1, 2, 3, 4]));
     if thorough {
-        rep.explore("docs-len5", Explore::full(), |c| body(c, &[5]));
+        rep.explore("docs8-len5", Explore::full(), |c| body(c, &[5]));
     }
 }
